@@ -92,6 +92,9 @@ func genTree(r *Rand, depth, maxDepth int, budget *int) TNode {
 	t := TNode{Kind: "nt"}
 	if r.Chance(1, 8) {
 		t.Kind = "walkable"
+		if r.Chance(1, 3) {
+			t.Kind = "walknt"
+		}
 	} else if depth > 0 && r.Chance(1, 14) {
 		// a list of alternatives nested below the root (Walkable: only its first element is walked)
 		t.Kind = "list"
@@ -153,7 +156,7 @@ func (t *TNode) valid(root bool) error {
 		if len(t.Kids) != 0 {
 			return fmt.Errorf("%s with kids", t.Kind)
 		}
-	case "walkable":
+	case "walkable", "walknt":
 	case "list":
 		if len(t.Kids) == 0 {
 			return fmt.Errorf("list must not be empty")
@@ -231,6 +234,35 @@ func (n *walkableNode) Walk(f func(parsley.Node) bool) bool {
 		}
 	}
 	return false
+}
+
+// walkNTNode implements BOTH Walkable and NonTerminalNode: the delegate decides (children
+// in reverse order); the library must not walk the children a second time.
+type walkNTNode struct{ hNode }
+
+func (n *walkNTNode) Walk(f func(parsley.Node) bool) bool {
+	for i := len(n.kids) - 1; i >= 0; i-- {
+		if parsley.Walk(n.kids[i], f) {
+			return true
+		}
+	}
+	return false
+}
+func (n *walkNTNode) Children() []parsley.Node { return n.kids }
+func (n *walkNTNode) Value(userCtx interface{}) (interface{}, parsley.Error) {
+	if n.run.callback("eval", n.id, userCtx, "") {
+		return nil, parsley.NewErrorf(parsley.Pos(n.id), "fault@%d", n.id)
+	}
+	var sb strings.Builder
+	sb.WriteString("(")
+	for _, c := range n.kids {
+		v, err := parsley.EvaluateNode(userCtx, c)
+		if err != nil {
+			return nil, err
+		}
+		sb.WriteString(canon(v) + " ")
+	}
+	return sb.String() + ")", nil
 }
 
 type xformableNode struct{ hNode }
@@ -413,6 +445,8 @@ func (r *c13Run) build(t *TNode) parsley.Node {
 		n = ast.EmptyNode(parsley.Pos(id))
 	case "walkable":
 		n = &walkableNode{hNode{r, id, "walkable", kids}}
+	case "walknt":
+		n = &walkNTNode{hNode{r, id, "walknt", kids}}
 	case "xformable":
 		n = &xformableNode{hNode{r, id, "xformable", nil}}
 	case "checkable":
@@ -507,7 +541,7 @@ func (m *c13Model) schemaOf(x *mTree) string {
 // walk: Walkable delegate or children first, then the node; stop at the first true.
 func (m *c13Model) walk(x *mTree, visit func(*mTree) bool) bool {
 	switch x.t.Kind {
-	case "walkable":
+	case "walkable", "walknt":
 		for i := len(x.kids) - 1; i >= 0; i-- {
 			if m.walk(x.kids[i], visit) {
 				return true
@@ -642,6 +676,20 @@ func (m *c13Model) eval(x *mTree) (interface{}, string) {
 		return int64(x.id), ""
 	case "empty", "walkable", "xformable", "checkable":
 		return noValue(x.id)
+	case "walknt":
+		if m.callback("eval", x.id, "") {
+			return nil, fmt.Sprintf("%d:fault@%d", x.id, x.id)
+		}
+		var sb strings.Builder
+		sb.WriteString("(")
+		for _, k := range x.kids {
+			v, e := m.eval(k)
+			if e != "" {
+				return nil, e
+			}
+			sb.WriteString(canon(v) + " ")
+		}
+		return sb.String() + ")", ""
 	case "list":
 		return noValue(m.posOf(x.kids[0]))
 	}
@@ -736,6 +784,8 @@ func (r *c13Run) shape(n parsley.Node) string {
 		return fmt.Sprintf("%s%d", x.kind, x.id)
 	case *walkableNode:
 		return fmt.Sprintf("walkable%d", x.id)
+	case *walkNTNode:
+		return fmt.Sprintf("walknt%d", x.id)
 	case *xformableNode:
 		return fmt.Sprintf("xformable%d", x.id)
 	case *checkableNode:
@@ -771,6 +821,8 @@ func kidsOfReal(n parsley.Node) []parsley.Node {
 	case ast.NodeList:
 		return x
 	case *walkableNode:
+		return x.kids
+	case *walkNTNode:
 		return x.kids
 	case parsley.NonTerminalNode:
 		return x.Children()
